@@ -11,8 +11,6 @@ import (
 	"encoding/hex"
 	"fmt"
 	"math/rand/v2"
-	"os"
-	"os/exec"
 	"regexp"
 	"runtime"
 	"sort"
@@ -594,55 +592,6 @@ func verifC31Analyse(data []byte) (spansOK, rkBad bool) {
 	return spansOK, rkBad
 }
 
-// verifC31Child runs newFlushableBatch on data in a child process (this test
-// binary, TestVerifC31FlushableChild) and reports whether the child died.
-func verifC31Child(data []byte) (msg string, died bool, err error) {
-	dir, err := os.MkdirTemp(vcommon.OutDir(), "c31child")
-	if err != nil {
-		return "", false, err
-	}
-	defer os.RemoveAll(dir)
-	cmd := exec.Command(os.Args[0], "-test.run", "^TestVerifC31FlushableChild$", "-test.count", "1")
-	cmd.Env = append(os.Environ(), "VERIF_C31_CHILD_INPUT="+hex.EncodeToString(data), "VERIF_OUT="+dir, "GORACE=")
-	out, runErr := cmd.CombinedOutput()
-	if runErr == nil {
-		return "", false, nil
-	}
-	if _, ok := runErr.(*exec.ExitError); !ok {
-		return "", false, runErr
-	}
-	m := regexp.MustCompile(`(?m)^(fatal error:.*|panic:.*)$`).Find(out)
-	if m == nil {
-		return "", false, fmt.Errorf("child failed without a panic line: %.200s", out)
-	}
-	msg = verifC31Digits.ReplaceAllString(string(m), "N")
-	if len(msg) > 70 {
-		msg = msg[:70]
-	}
-	return msg, true, nil
-}
-
-// TestVerifC31FlushableChild is the child side of verifC31Child; it does
-// nothing unless VERIF_C31_CHILD_INPUT is set.
-func TestVerifC31FlushableChild(t *testing.T) {
-	hx := os.Getenv("VERIF_C31_CHILD_INPUT")
-	if hx == "" {
-		t.Skip("child helper")
-	}
-	data, err := hex.DecodeString(hx)
-	if err != nil {
-		t.Skip("bad input")
-	}
-	nb := newBatch(nil)
-	if err := nb.SetRepr(data); err != nil {
-		return
-	}
-	fb, err := newFlushableBatch(nb, DefaultComparer)
-	if err == nil {
-		_ = verifC31Forward(fb.newIter(nil))
-	}
-}
-
 var verifC31Digits = regexp.MustCompile(`0x[0-9a-fA-F]+|[0-9]+`)
 
 func verifC31Guard(f func()) (pmsg string, panicked bool, stack string) {
@@ -783,29 +732,13 @@ func verifC31Malformed(r *vcommon.Report, i int, rng *rand.Rand, seen map[string
 		r.Eval(1)
 		r.Count("malformed_inputs", 1)
 		r.Distinct("mal", hex.EncodeToString(data))
-		// A header count in the billions makes newFlushableBatch size an
-		// allocation from it; a failed allocation is a fatal error that cannot be
-		// recovered, so such inputs run in a child process (twice per process,
-		// afterwards they are only counted).
+		// newFlushableBatch sizes an allocation from the header count (16 B per
+		// entry): a count in the billions asks for up to 64 GiB, which either kills
+		// the process (fatal "out of memory", known finding F4) or makes the race
+		// runtime touch gigabytes of shadow memory on a shared machine. Such inputs
+		// are NOT executed; they are only counted.
 		if h, ok := batchrepr.ReadHeader(data); ok && h.Count > 1<<24 {
-			if seen["huge-count-child"] >= 2 {
-				r.Count("huge_count_inputs_not_executed", 1)
-				continue
-			}
-			seen["huge-count-child"]++
-			msg, died, err := verifC31Child(data)
-			switch {
-			case err != nil:
-				r.Inconclusive("child process for a huge-count input could not be run: %v", err)
-			case died:
-				r.Count("decode_panics_total", 1)
-				r.SetAdd("decode_panics", "newFlushableBatch(child)|"+msg)
-				r.Violate("decode-panic", fmt.Sprintf("newFlushableBatch killed the process on a %d-byte repr whose header count is %d: %s", len(data), h.Count, msg),
-					map[string]any{"api": "newFlushableBatch", "panic": msg, "input_hex": hex.EncodeToString(data), "header_count": h.Count},
-					map[string]any{"api": "newFlushableBatch", "panic": msg})
-			default:
-				r.Count("verdict_ok_or_error:newFlushableBatch(child)", 1)
-			}
+			r.Count("huge_count_inputs_not_executed", 1)
 			continue
 		}
 		report := func(api, p, st string) {
